@@ -219,10 +219,11 @@ class Extractor:
                 a, b = x['inner']
                 while a.get('kind') in ('ParenExpr', 'ImplicitCastExpr'):
                     a = a['inner'][0]
-                while b.get('kind') in ('ParenExpr', 'ImplicitCastExpr', 'CStyleCastExpr'):
-                    b = b['inner'][0]
-                if a.get('kind') == 'MemberExpr' and a.get('name') == 'write_size' and b.get('kind') == 'DeclRefExpr':
-                    found.add(b['referencedDecl']['id'])
+                if a.get('kind') == 'MemberExpr' and a.get('name') == 'write_size':
+                    # whatever the shape of the right-hand side (plain, cast, conditional): the locals it mentions
+                    for y in walk(b):
+                        if y.get('kind') == 'DeclRefExpr' and y['referencedDecl']['id'] in self.locals:
+                            found.add(y['referencedDecl']['id'])
         if len(found) != 1:
             raise AnalysisBroken('decoder %s: cannot tell which local is the decoded length (%d candidates)' % (self.fname, len(found)))
         return found.pop()
